@@ -132,7 +132,8 @@ class FakeCtl:
                 self.written[k] = n
         if not want["alive"] and not self.sent_exit:
             self.sent_exit = True
-            self._send(f"X {self.exit_code}", want_ack=False)
+            # negative exit code = death by that signal, sent by the program to itself (not by infretis)
+            self._send(f"X {self.exit_code}" if self.exit_code >= 0 else f"K {-self.exit_code}", want_ack=False)
             self._wait_dead()
 
     def sleep(self, _seconds):
